@@ -64,6 +64,17 @@ def spec_diff(a, b, N, skip_dc=False):
 
 
 def direct(seed, tier, model, stats):
+    try:
+        return _direct(seed, tier, model, stats)
+    except Exception as e:  # noqa: BLE001 -- a filter raised on a legal call (the argument checks have their own try blocks)
+        import traceback
+        tb = traceback.extract_tb(e.__traceback__)
+        where = next((f"{t.name} line {t.lineno}" for t in reversed(tb) if "ripasso" in t.filename), "ripasso")
+        return [{"what": f"a ripasso filter raised {type(e).__name__}: {e} ({where}) on a legal call of the round-trip checks",
+                 "call": "applyRCFilter / applyInverseRCFilter / applyCustomTransferFunction"}]
+
+
+def _direct(seed, tier, model, stats):
     import random
     r = random.Random(seed * 7907 + 13)
     fails = []
